@@ -740,7 +740,7 @@ class ISD(model.Document):
     if len(isd_element_children) > 0:
       isd_element.push_children(isd_element_children)
 
-      if isinstance(isd_element, (model.P, model.Rt, model.Rtc)):
+      if isinstance(isd_element, (model.P, model.Rt, model.Rp, model.Rtc)):
         text_node_list = []
         _construct_text_list(isd_element, text_node_list)
         _process_lwsp(text_node_list)
